@@ -1,7 +1,7 @@
 #!/bin/bash
 # usage: saveseed.sh <PROP> <n> <wtdir> <detected_by_quick:yes|no|thorough> "<note>"
 prop=$1; n=$2; wt=$3; det=$4; note=$5
-d=/verif/seeded/$prop-m$n
+d=/verif/seeded/${SEEDPREFIX:-$prop-m}$n
 mkdir -p $d
 cp $wt/MUTATION$n.diff $d/patch.diff
 cp $wt/DEMO$n.md $d/demo.md 2>/dev/null
@@ -9,7 +9,8 @@ cp $wt/DEMO${n}_test.go.txt $d/demo_test.go.txt 2>/dev/null
 python3 - "$prop" "$n" "$det" "$note" <<'PY'
 import json,sys,subprocess
 prop,n,det,note=sys.argv[1:5]
-d=f"/verif/seeded/{prop}-m{n}"
+import os
+d="/verif/seeded/"+os.environ.get("SEEDPREFIX",prop+"-m")+n
 files=[l[6:].strip() for l in open(d+"/patch.diff") if l.startswith("+++ b/")]
 json.dump({"property":prop,"origin":"sub-agent (property text + scratch worktree only)","files":files,"detected":det,"note":note,
  "base_commit":subprocess.check_output(["git","-C","/repo","rev-parse","--short","HEAD"]).decode().strip()},open(d+"/meta.json","w"),indent=1)
